@@ -390,7 +390,7 @@ func run(c *lib.Ctx) {
 		"malformed keys (empty executor, no separator, wrong prefix, names that are prefixes of each other, very long), optionally omitting a written key from the receipt; every receipt of the real EventExecTxList is judged by a predicate written from the statement " +
 		"(both directions: success only if all keys allowed and reported; all-own-keys transactions must succeed); a second stream emits local keys (own / foreign / malformed prefixes). non-trivial = transaction with >=1 key outside its own namespace or an omitted key; distinct = tx fingerprint")
 	c.Assume("main-chain executor names only (parachain titles need a parachain node configuration, not generated)", "heights below ForkExecKey (legacy manage/token exceptions) not generated")
-	n := c.N(2400, 60000)
+	n := c.N(2400, 360000)
 	per := 300
 	nb := (n + per - 1) / per
 	lib.Parallel(nb, 14, func(bi int) {
@@ -427,7 +427,7 @@ func run(c *lib.Ctx) {
 			}
 		}
 	})
-	nl := c.N(300, 6000)
+	nl := c.N(300, 36000)
 	perL := 100
 	nbl := (nl + perL - 1) / perL
 	lib.Parallel(nbl, 14, func(bi int) {
